@@ -550,7 +550,10 @@ func c20GenExtra(r *common.Rand) [][]string {
 	var out [][]string
 	pool := [][]string{{"Origin", "https://client.example"}, {"Origin", "null"}, {"Referer", "https://client.example/app"},
 		{"User-Agent", "nostr-client/1.0"}, {"Accept-Language", "en"}, {"Cookie", "a=b"}, {"X-Forwarded-For", "10.0.0.1"},
-		{"Cache-Control", "no-cache"}, {"Accept-Encoding", "gzip"}, {"Content-Type", "application/nostr+json"}}
+		{"Cache-Control", "no-cache"}, {"Accept-Encoding", "gzip"}, {"Content-Type", "application/nostr+json"},
+		// range and conditional request headers: the document is not a file
+		{"Range", "bytes=0-9"}, {"If-None-Match", "*"}, {"If-Match", "\"v1\""}, {"If-Modified-Since", "Mon, 02 Jan 2006 15:04:05 GMT"},
+		{"If-Range", "\"v1\""}}
 	if !r.Chance(55) {
 		return nil
 	}
